@@ -1,6 +1,6 @@
 (* Property C20 — HTML views are well-formed and never let data break out of its text position.
    Only statements and [exact]; proofs live in Proofs/Html*.v. *)
-From PG Require Import Common.Tactics Model.Html Proofs.HtmlProofs Proofs.HtmlTreeView.
+From PG Require Import Common.Tactics Gen.HtmlStyles Model.Html Model.HtmlDoc Proofs.HtmlProofs Proofs.HtmlTreeView Proofs.HtmlDocProofs.
 From Coq Require Import NArith.
 Local Open Scope N_scope.
 
@@ -74,3 +74,26 @@ Theorem C20_default_summaries_show_every_key : forall o sq k c,
   o_enable_summary o = None -> o_summary_for_str o = true -> exists t, key_shown_text o sq k c = Some t.
 Proof. exact default_keys_shown. Qed.
 Print Assumptions C20_default_summaries_show_every_key.
+
+(* The whole document pg.to_html_str returns by default: <html><head><style>shared CSS</style></head><body>content</body></html>.
+   The CSS constants are regenerated from tree_view.py on every run; none contains lt (so only its own closing tag ends the block). *)
+Theorem C20_generated_css_has_no_lt : forallb no_lt all_css = true.
+Proof. exact generated_css_has_no_lt. Qed.
+Print Assumptions C20_generated_css_has_no_lt.
+
+Theorem C20_document_well_formed : forall o v, parse_html (render (document o v)) = Some (normalize [document o v]).
+Proof. exact document_well_formed. Qed.
+Print Assumptions C20_document_well_formed.
+
+Theorem C20_document_no_injection : forall o v,
+  exists d, parse_html (render (document o v)) = Some d /\
+            forall n, In n d -> incl (tags_of n) (document_tags ++ vocabulary_tags)
+                             /\ incl (optnames_of n) vocabulary_opts /\ incl (attrnames_of n) vocabulary_attrs.
+Proof. exact document_no_injection. Qed.
+Print Assumptions C20_document_no_injection.
+
+(* No part of the value is in the head: the document's texts are the content's texts and the wrapper's newlines. *)
+Theorem C20_document_texts : forall o v,
+  texts_of (document o v) = [[c_nl]; [c_nl]; [c_nl]; [c_nl]; [c_nl]] ++ texts_of (tree_view o v) ++ [[c_nl]; [c_nl]].
+Proof. exact document_texts. Qed.
+Print Assumptions C20_document_texts.
